@@ -268,7 +268,11 @@ def execute_plan(plan: dict, kdf_limit: int = 300, keep_events: bool = False) ->
                     # what LAPS-style callers do: the library's own re-pack with the ciphertext trailing the envelope
                     from dpapi_ng._blob import DPAPINGBlob
 
-                    blob = bytes(DPAPINGBlob.unpack(blob).pack(blob_in_envelope=False))
+                    try:
+                        blob = bytes(DPAPINGBlob.unpack(blob).pack(blob_in_envelope=False))
+                    except Exception as e:  # noqa: BLE001 - the library cannot re-pack a blob it made itself: that is the operation's outcome
+                        blob = None
+                        ot.prep_exc = e
                 elif blob is not None and b.get("relayout"):
                     blob = cms.relayout(blob, in_envelope=False)
                 if blob is not None and b.get("graft"):
@@ -439,7 +443,7 @@ def execute_plan(plan: dict, kdf_limit: int = 300, keep_events: bool = False) ->
                         kb.limit = kdf_limit
                         world.entropy.op = f"op{i}"
                         if name == "unprotect" and args[0] is None:
-                            ot.outcome = drive.Outcome("raise", exc=ValueError("source blob missing"))
+                            ot.outcome = drive.Outcome("raise", exc=getattr(ot, "prep_exc", None) or ValueError("source blob missing"))
                         else:
                             ot.outcome = drive.classify(lambda: offline.call_api(world, "sync", name, *args, **kw))
                         ot.kdf_calls = kb.count
@@ -461,7 +465,7 @@ def execute_plan(plan: dict, kdf_limit: int = 300, keep_events: bool = False) ->
                                 if name == "load_key":
                                     ot.outcome = drive.classify(lambda: offline.load_into(kw["cache"], args[0]))
                                 elif name == "unprotect" and args[0] is None:
-                                    ot.outcome = drive.Outcome("raise", exc=ValueError("source blob missing"))
+                                    ot.outcome = drive.Outcome("raise", exc=getattr(ot, "prep_exc", None) or ValueError("source blob missing"))
                                 else:
                                     ot.outcome = drive.classify(lambda: offline.call_api(world, "sync", name, *args, **kw))
                                 world.log("op.return", ot.idx, ot.outcome.brief())
@@ -500,7 +504,7 @@ def execute_plan(plan: dict, kdf_limit: int = 300, keep_events: bool = False) ->
                             fn = dpapi_ng.async_ncrypt_protect_secret if name == "protect" else dpapi_ng.async_ncrypt_unprotect_secret
                             try:
                                 if name == "unprotect" and args[0] is None:
-                                    raise ValueError("source blob missing")
+                                    raise (getattr(ot, "prep_exc", None) or ValueError("source blob missing"))
                                 if ot.op.get("inner") == "sync":
                                     # application code that calls the blocking API from inside a coroutine (same task, same context)
                                     val = (dpapi_ng.ncrypt_protect_secret if name == "protect" else dpapi_ng.ncrypt_unprotect_secret)(*args, **kw)
